@@ -59,6 +59,23 @@ def run(tier):
         line = [[sel[k], [vals[k]]] for k in g.r.sample(range(3), 3)]
         acts.append(eval_action(g.spell_line(cfg, line), tag={"k": "line", "line": line_json(line)}))
         blocks.append((cfg, acts))
+    # T1c: several constraints that name the same argument: c required by a (or by two arguments) and excluded by b, used in
+    # every order; the bookkeeping holds more than one entry for c when it is finally used
+    for _ in range(30 if tier == "quick" else 800):
+        cfg = g.cfg(nargs=g.r.randint(4, 6), kinds=["flag", "flag", "int"], constraints=False, allow_pos=False)
+        for x in cfg["args"]:
+            x["mand"] = False; x["card"] = {"t": "none", "a": 0, "b": 0}
+        a, a2, b, cc = g.r.sample(range(1, len(cfg["args"]) + 1), 4)
+        cfg["args"][a - 1]["req"] = [cc]; cfg["args"][a2 - 1]["req"] = [cc]; cfg["args"][b - 1]["exc"] = [cc]
+        for x in (a, a2, b):
+            cfg["args"][x - 1]["cspell"] = g.r.choice([0, 0, 1, 2])
+        use = lambda i: [i, []] if cfg["args"][i - 1]["kind"] == "flag" else [i, [str(g.r.randint(0, 9))]]
+        acts = []
+        for order in ([a, b, cc], [b, a, cc], [a, cc, b], [a, a2, b, cc], [a, b, a2, cc], [a, a2, cc], [a, cc, a2, cc], [a, a2], [b, cc], [cc, b], [a, cc], [cc, a]):
+            line = [use(i) for i in order]
+            kinds["constraints_on_one_argument"] += 1
+            acts.append(eval_action(g.spell_line(cfg, line), tag={"k": "line", "line": line_json(line)}))
+        blocks.append((cfg, acts))
     # T2: rules broken inside a sub-group (bad value, argument used again on the second visit, excluded argument, missing value,
     # unknown key, a sub-group key used outside) and the refusals of command-mode arguments
     for k in range(60 if tier == "quick" else 1500):
@@ -78,7 +95,8 @@ def run(tier):
     script2 = os.path.join(c.wd, "random.ndjson")
     write_cases(script2, blocks)
     c.notes.append("T: mutation kinds generated: %s" % dict(kinds))
-    run_script(c, exe, script2, "T")
+    rej, tr = run_script(c, exe, script2, "T")
+    decl_consistency(c, tr, "T")
     return finish_args(c)
 
 
